@@ -32,7 +32,7 @@ func TestCheck(t *testing.T) {
 	cfg := mon.Load(ID)
 	rep := mon.NewReporter(cfg, "exploration",
 		"(a) generated graph/DAG/workflow/chain specs in which every node natively implements a PRNG-chosen non-empty subset of {Invoke,Stream,Collect,Transform}, splits its output into PRNG chunkings (single chunk, empty leading chunks, keys spread over chunks, array-backed or Pipe(cap 0/1/3)+goroutine producers, lazy transforms), with fan-out copies, fan-in merges, stream and value branch conditions, (stream) state handlers, input/output keys, workflow field mappings and nested graphs. Metamorphic oracle: for one compiled object and one logical input all four paradigms, under 2-4 input chunkings, must give the value of the reference interpreter (outputs concatenated by the harness's own concatenator); an injected node failure on the data path to END (error returned / error item mid-stream) must fail the run in all four paradigms; no panic on the caller, no hang (quiescence monitor). Non-trivial: >=2 bodies executed and >=2 different native paradigm sets among the executed nodes; distinct = (spec, input) digests. "+
-			"(b) typed sub-workload written against eino's public API: series-parallel programs (Graph in both trigger modes, Chain, Workflow, nested up to 2 deep) whose nodes are declared over string / any / a named interface / *struct / struct / map[string]any, produce untyped nils, typed nil pointers, nil maps and maps holding nil, sit behind input/output keys, run-time checked edges, value and stream branch conditions, fan-ins and field mappings (whole<->field, struct and map sources); the generator grows a program along the reference evaluation of its input, so that well-typed continuations, continuations that must fail everywhere, and the known-undefined situations (two fan-in predecessors with one key, fan-in of any-typed map outputs, an input key or mapped source key that never shows up) are all produced. Oracle: reference value in every paradigm / a failure in every paradigm / (undefined) agreement of the four paradigms; never a panic on the caller's goroutine or a hang. Non-trivial: >=2 lambda nodes, >=2 declared types, >=2 native paradigm sets or a nested program.",
+			"(b) typed sub-workload written against eino's public API: series-parallel programs (Graph in both trigger modes, Chain, Workflow, nested up to 2 deep) whose nodes are declared over string / any / a named interface / *struct / struct / map[string]any, produce untyped nils, typed nil pointers, nil maps and maps holding nil, sit behind input/output keys, run-time checked edges, value and stream branch conditions, fan-ins and field mappings (whole<->field, struct and map sources); the generator grows a program along the reference evaluation of its input, so that well-typed continuations, continuations that must fail everywhere, and the known-undefined situations (two fan-in predecessors with one key, fan-in of any-typed map outputs, an input key or mapped source key that never shows up) are all produced. Also generated inside these programs: identity nodes whose Transform form is schema.StreamReaderWithConvert with a convert function that panics / fails on the chunk holding a PRNG-chosen byte or key (the run must fail in every paradigm, never panic on the caller); pipelines around the framework's own lambdas (compose.ToList over every type of the universe and over *schema.Message, compose.MessageParser with JSON text cut over message chunks) behind multi-chunk producers and in front of consumers of every paradigm set; workflow branches that select one of several consumers reading the same output over data-only (field-mapped) inputs, and type-switch branches in graphs and chains, where the siblings that are not selected would not pass the checks of their edge. Oracle: reference value in every paradigm / a failure in every paradigm / (undefined) agreement of the four paradigms; never a panic on the caller's goroutine or a hang. Non-trivial: >=2 lambda nodes, >=2 declared types, >=2 native paradigm sets or a nested program.",
 		[]string{"node functions are homomorphic w.r.t. chunk concatenation where a lazy transform is used, so agreement is a theorem of the spec", "gspec workload: absent input keys, zero-chunk streams and colliding-key merges in stream form are not generated / not compared (the statement does not define them); the typed sub-workload generates them and demands only that the four paradigms agree", "typed sub-workload: only strings and maps declared as such are cut into several non-empty chunks; other declared types come as one chunk (an untyped nil possibly as several nil chunks); struct-typed mapping targets are only fed by single-chunk sources (the concatenation of partial structs is the C15 finding stream-struct-fan-in)"},
 		150)
 	defer func() {
@@ -42,6 +42,9 @@ func TestCheck(t *testing.T) {
 	}()
 	ctx := context.Background()
 	rep.Require("typed_cases", 100)
+	for _, k := range []string{"typed_site_lazy-converter-fires", "typed_site_lazy-converter-passes", "typed_site_skipped-target-edge", "typed_site_builtin-tolist", "typed_site_builtin-msgparse", "typed_site_builtin-msglist", "typed_programs_with_type-switch-branch"} {
+		rep.Require(k, 5)
+	}
 	for _, hz := range []string{hzDupKey, hzAnyFanIn, hzMissingInKey, hzMissingMapK} {
 		rep.Require("typed_ref_undefined_"+hz, 3)
 	}
